@@ -328,6 +328,40 @@ gen_c14 (gen_t *g, rng_t *r, scenario_t *sc, int tier)
 	    gen_composite (g, 1, src, mk, dst);
 	    sc->ops[sc->n_ops - 1] = sc->ops[sc->n_ops - 3];       /* the very same request */
 	}
+	else if (roll < 38 && roll >= 36)
+	{
+	    /* a setter called twice with values that differ in ONE component, a use in between:
+	     * "nothing changed" shortcuts must look at the whole value */
+	    if (rng_chance (r, 1, 2))
+	    {
+		/* dither offset of a destination: only x or only y changes; a gradient goes through the wide
+		 * pipeline, where dithering happens */
+		int grad = -1, k;
+		int64_t d[5] = { 0, 0, 0, dst, 1 + (int64_t)rng_n (r, 5) }, o[6] = { 0, 0, 0, dst, rng_range (r, -9, 9), rng_range (r, -9, 9) };
+		for (k = 2; k < 2 + nsrc; k++) if (g->s[k].used && g->s[k].kind != MOP_BITS && g->s[k].kind != MOP_SOLID) grad = k;
+		if (grad < 0) grad = src;
+		sc_addv (sc, MOP_SET_DITHER, 5, d);
+		sc_addv (sc, MOP_SET_DITHER_OFFSET, 6, o);
+		gen_composite (g, 1, grad, -1, dst);
+		o[rng_chance (r, 1, 2) ? 4 : 5] += rng_chance (r, 1, 2) ? 1 : 3;
+		sc_addv (sc, MOP_SET_DITHER_OFFSET, 6, o);
+		gen_composite (g, 1, grad, -1, dst);
+		sc->ops[sc->n_ops - 1] = sc->ops[sc->n_ops - 3];
+	    }
+	    else
+	    {
+		/* a transform whose second version differs from the first in one entry only, often in the bottom row */
+		int e;
+		gen_transform (g, src, TC_ANY);
+		gen_composite (g, 1, src, -1, dst);
+		{ sim_op_t prev = sc->ops[sc->n_ops - 2]; sc_addv (sc, prev.kind, prev.n, prev.a); }     /* the same set_transform again ... */
+		e = rng_chance (r, 1, 2) ? 6 + (int)rng_n (r, 3) : (int)rng_n (r, 9);
+		if (sc->ops[sc->n_ops - 1].n >= M_PREFIX + 2 + 9)
+		    sc->ops[sc->n_ops - 1].a[M_PREFIX + 2 + e] += e == 8 ? 65536 : (e >= 6 ? 97 : 4096);   /* ... with one entry moved */
+		gen_composite (g, 1, src, -1, dst);
+		sc->ops[sc->n_ops - 1] = sc->ops[sc->n_ops - 3];
+	    }
+	}
 	else if (roll < 36)
 	{
 	    /* the same image gets a clip of several boxes, is used, gets another clip (often of
